@@ -1,4 +1,5 @@
 import gfapy
+import math
 import re
 
 def unsafe_decode(string):
@@ -11,8 +12,10 @@ def decode(string):
   validate_encoded(string)
   return unsafe_decode(string)
 
-def validate_decoded(integer):
-  pass
+def validate_decoded(obj):
+  if isinstance(obj, float) and not math.isfinite(obj):
+    raise gfapy.ValueError(
+      "{} cannot be represented in a GFA float field".format(obj))
   # always valid
 
 def validate_encoded(string):
@@ -30,6 +33,7 @@ def encode(obj):
     validate_encoded(obj)
     return obj
   elif isinstance(obj, int) or isinstance(obj, float):
+    validate_decoded(obj)
     return str(obj)
   else:
     raise gfapy.TypeError(
